@@ -465,6 +465,11 @@ def spec_verdict(api, toks, qs, us, impl, spec_line):
     return None
 
 
+try:
+    ALL_FINDINGS = json.load(open(os.path.join(V.VERIF, "known-findings.d", "C06.json")))["findings"]
+except Exception:
+    ALL_FINDINGS = []
+
 WITNESSES = [
     # F8: the three lookup methods on a document without document element
     ("F8", "emptydoc 1 p 1 urn:a"),
@@ -481,6 +486,47 @@ WITNESSES = [
 ]
 
 
+def classify(req, impl, why=""):
+    """attributes a Spec-violating answer to one of the findings of known-findings.d/C06.json by a precise predicate on the
+    request, the answer and the oracle's reason; None = not one of them.  (Only a label in the replay file: nothing is
+    suppressed.)"""
+    a = req.split()
+    if "CRASH" in impl and (a[0] == "emptydoc" or (a[0] == "parse" and a[1] == "dom")):
+        return "F8"
+    if a[0] != "parse":
+        return None
+    api, sc, ver = a[1], a[2], a[3]
+    accepted = "FATAL" not in impl and "was accepted" in why
+    toks = request_parts(req)[5]
+    # the tags with the bindings in scope at each of them (python-side bookkeeping for the label only)
+    scopes, stack, i = [], [{}], 0
+    while i < len(toks):
+        if toks[i] == "S":
+            k = int(toks[i + 4])
+            atts = [(toks[i + 5 + 3 * j], toks[i + 6 + 3 * j], toks[i + 7 + 3 * j]) for j in range(k)]
+            sc_ = dict(stack[-1])
+            for ap, al, av in atts:
+                if ap == "xmlns":
+                    sc_[al] = av
+            scopes.append((atts, sc_))
+            if toks[i + 3] != "e":
+                stack.append(sc_)
+            i += 5 + 3 * k
+        else:
+            if toks[i] == "E" and len(stack) > 1:
+                stack.pop()
+            i += 1
+    if ver == "11" and (accepted or "DOMException" in impl) and \
+            any(ap not in ("-", "xml", "xmlns") and sc_.get(ap) == "-" for atts, sc_ in scopes for ap, al, av in atts):
+        return "F28"
+    if sc == "wf" and accepted and any(len(atts) > 100 for atts, _ in scopes):
+        return "F27"
+    if sc == "wf" and accepted and any(ap == "xmlns" and al != "xml" and av in (XML_URI, XMLNS_URI)
+                                       for atts, _ in scopes for ap, al, av in atts):
+        return "F26"
+    return None
+
+
 def request_parts(req):
     a = req.split()
     if a[0] == "parse":
@@ -492,15 +538,170 @@ def request_parts(req):
     return None
 
 
+def process(ctx, xh, xm, cases, st):
+    """one batch of cases: run both binaries, decide every case with the Spec, register violations; st = counters"""
+    lines = [c[1] for c in cases]
+    rc1, impl, err1 = run_bin(xh, lines)
+    rc2, model, err2 = run_bin(xm, lines)
+    if rc1 != 0 or len(impl) != len(lines):
+        ctx.violation("harness-crash", {"what": "implementation harness crashed or lost lines", "rc": rc1,
+                                        "stderr": err1[-2000:], "answered": len(impl), "asked": len(lines),
+                                        "request": lines[len(impl)] if len(impl) < len(lines) else None})
+        return False
+    if rc2 != 0 or len(model) != len(lines):
+        ctx.violation("model-crash", {"what": "model driver crashed", "stderr": err2[-2000:]}, no_input=True)
+        return False
+    # ---- the Spec side: one spec_doc per document, one spec_stack per history, one spec_stream per complete SAX2 answer
+    spec_req, spec_idx = [], {}
+    for k, (kind, req, _) in enumerate(cases):
+        parts = request_parts(req)
+        if parts:
+            api, sc, ver, qs, us, toks = parts
+            key = " ".join(("spec_doc %s %d %s %d %s %s" % (ver, len(qs), " ".join(qs), len(us), " ".join(us), " ".join(toks))).split())
+            if key not in spec_idx:
+                spec_idx[key] = len(spec_req)
+                spec_req.append(key)
+        elif req.startswith("stack "):
+            spec_idx["spec_" + req] = len(spec_req)
+            spec_req.append("spec_" + req)
+    stream_req, stream_idx = [], {}
+    for k, (kind, req, _) in enumerate(cases):
+        parts = request_parts(req)
+        if parts and parts[0] in ("sax2p", "sax2") and impl[k].endswith("END"):
+            stream_idx[k] = len(stream_req)
+            stream_req.append("spec_stream " + impl[k])
+    rcS, spec_out, errS = run_bin(xm, spec_req + stream_req)
+    if rcS != 0 or len(spec_out) != len(spec_req) + len(stream_req):
+        ctx.violation("model-crash", {"what": "spec oracle driver crashed", "stderr": errS[-2000:]}, no_input=True)
+        return False
+    stream_out = spec_out[len(spec_req):]
+
+    def verdict(k):
+        kind, req, _ = cases[k]
+        parts = request_parts(req)
+        i = impl[k]
+        if not parts:
+            if "CRASH" in i or "EXC" in i:
+                return "crash / exception: " + i[:200]
+            if req.startswith("stack "):
+                # the answers to the lookups must be those map_spec gives on the declarations sop_run leaves in scope; a
+                # history that pops / declares without an open scope must end in the corresponding exception
+                want = spec_out[spec_idx["spec_" + req]].split()
+                got = i.split()
+                if want and want[-1] == "!":
+                    want = want[:-1]
+                    if not got or got[-1] not in ("!StackUnderflow", "!EmptyStack"):
+                        return "history without open scope not rejected"
+                    got = got[:-1]
+                elif got and got[-1].startswith("!"):
+                    got = got[:-1]
+                    want = want[:len(got)]
+                if got != want:
+                    return "mapPrefixToURI answers %s, the declarations in scope give %s" % (got[:40], want[:40])
+            return None
+        api, sc, ver, qs, us, toks = parts
+        key = " ".join(("spec_doc %s %d %s %d %s %s" % (ver, len(qs), " ".join(qs), len(us), " ".join(us), " ".join(toks))).split())
+        try:
+            r = spec_verdict(api, toks, qs, us, i, spec_out[spec_idx[key]])
+        except Exception as e:       # an answer the oracle cannot even read
+            r = "unreadable answer (%r): %s" % (e, i[:200])
+        if r:
+            return r
+        if k in stream_idx and stream_out[stream_idx[k]] != "ok 1 1":
+            return "SAX2 event stream is not balanced / correctly scoped: " + stream_out[stream_idx[k]]
+        return None
+
+    divergences = []
+    for k, ((kind, req, g), i, m) in enumerate(zip(cases, impl, model)):
+        ctx.count()
+        st["kinds"][kind] = st["kinds"].get(kind, 0) + 1
+        if kind == "stack":
+            st["answers"]["stack"] += 1
+            if " D " in req or " G " in req:
+                ctx.distinct(req)
+        else:
+            st["answers"]["FATAL" if "FATAL" in i else "END/OK"] += 1
+            if "xmlns" in req:
+                ctx.distinct(req)
+        if i != m:
+            divergences.append(k)
+            continue
+        # agreeing case: the Spec oracle still runs on every one of them (a bug shared by model and code cannot hide)
+        v = verdict(k)
+        st["checked"] += 1
+        if v:
+            st["spec_viol"] += 1
+            if st["spec_viol"] <= 5:
+                ctx.violation("spec", {"request": req, "impl": i[:4000], "model": m[:4000], "spec": v, "kind": kind,
+                                       "finding": classify(req, i, v),
+                                       "what": "implementation and model agree but violate the Spec (unlisted defect)"})
+    st["traces"] += len(lines)
+    st["divergences"] += len(divergences)
+    if len(ctx.coverage["samples"]) < 3 and len(cases) > len(WITNESSES) + 8:
+        for k in (len(WITNESSES) + 7, len(cases) // 2, len(cases) - 1):
+            ctx.sample({"kind": cases[k][0], "request": cases[k][1][:600], "impl": impl[k][:600], "model": model[k][:600]})
+    # ---- divergences: decided by the Spec ----
+    for k in divergences[:2000]:
+        kind, req, _ = cases[k]
+        v = verdict(k)
+        st["checked"] += 1
+        if v:
+            st["viol"] += 1
+            fid = classify(req, impl[k], v)
+            st["per_finding"][fid] = st["per_finding"].get(fid, 0) + 1
+            if st["per_finding"][fid] <= (2 if fid else 8):
+                f = next((x for x in ALL_FINDINGS if x.get("id") == fid), None) if fid else None
+                ctx.violation("divergence", {"request": req, "impl": impl[k][:4000], "model": model[k][:4000], "spec": v,
+                                             "kind": kind, "finding": fid,
+                                             "fix": (f.get("patch"), f.get("commit")) if f else None,
+                                             "what": "implementation differs from the model and violates the Spec" +
+                                                     (" (finding %s of known-findings.d/C06.json: its fix: commit is missing "
+                                                      "from this tree)" % fid if fid else "")})
+        else:
+            st["unexplained"].append((req, impl[k][:4000], model[k][:4000]))
+    return True
+
+
+def gen_batches(ctx, feats):
+    """yields lists of (kind, request, generator-info); everything derives from ctx.rng"""
+    if ctx.replay:
+        r = json.load(open(ctx.replay))
+        yield [("replay", r["request"], None)]
+        return
+    ndocs = 900 if ctx.tier == "quick" else 25000
+    nstack = 300 if ctx.tier == "quick" else 10000
+    per = 450
+    first = True
+    done = 0
+    while done < ndocs:
+        cases = [("witness-" + tag, req, None) for tag, req in WITNESSES] if first else []
+        first = False
+        for d in range(done, min(ndocs, done + per)):
+            g = gen_doc(ctx.rng, d)
+            qs, us = doc_queries(g.toks)
+            body = " ".join(("%d %s %d %s %s" % (len(qs), " ".join(qs), len(us), " ".join(us), " ".join(g.toks))).split())
+            for f in g.features | {"profile:" + g.profile, "xml-" + g.ver}:
+                feats[f] = feats.get(f, 0) + 1
+            for api in APIS:
+                for sc in SCANNERS:
+                    cases.append(("doc-%s-%s" % (api, sc), "parse %s %s %s %s" % (api, sc, g.ver, body), g))
+        done += per
+        for _ in range(nstack * per // ndocs + 1):
+            cases.append(("stack", gen_stack_ops(ctx.rng), None))
+        yield cases
+    ctx.coverage["input_distribution"] = {"documents": ndocs, "features": feats}
+
+
 def run(ctx):
     t0 = time.time()
     ctx.coverage["trusted_base"] = list(V.GLOBAL_TRUSTED_BASE) + [
         "modelled rather than verified: the character-level scanning of a start tag (rawAttrScan, attribute value "
         "normalisation), grammar lookup / validation in IGXMLScanner::scanStartTagNS and buildAttList (only the DTD-less, "
         "schema-less path is modelled), DTD-defaulted xmlns attributes, the XSAXMLScanner / DGXMLScanner variants; the "
-        "request renderer (token list -> XML text) in harness/C06.cpp"]
-    ctx.assumptions = ["documents are rendered with an explicit XML declaration (a reused scanner otherwise keeps the XML "
-                       "version of the previous document: reported to the coordinator as a C15 issue)",
+        "request renderer (token list -> XML text) in harness/C06.cpp; T06_resolve_* cover the IG/SG path, the WFXMLScanner "
+        "path is tied to the Spec by the correspondence only"]
+    ctx.assumptions = ["documents are rendered with an explicit XML declaration and every request uses a fresh parser "
+                       "(state carried between documents by a reused parser is the subject of C15)",
                        "null and the empty string are identified in DOM answers (XMLString::equals does the same)"]
     ctx.build_lib()
     try:
@@ -524,144 +725,28 @@ def run(ctx):
         return
     xm = ctx.ocaml("C06", ["gen_c06"])
     xh = ctx.harness("C06")
-
-    # ---- cases ----
-    cases = []          # (kind, request, docinfo)
-    if ctx.replay:
-        r = json.load(open(ctx.replay))
-        cases.append(("replay", r["request"], None))
-    else:
-        for tag, req in WITNESSES:
-            cases.append(("witness-" + tag, req, None))
-        ndocs = 1100 if ctx.tier == "quick" else 40000
-        feats = {}
-        for d in range(ndocs):
-            g = gen_doc(ctx.rng, d)
-            qs, us = doc_queries(g.toks)
-            body = "%d %s %d %s %s" % (len(qs), " ".join(qs), len(us), " ".join(us), " ".join(g.toks))
-            body = " ".join(body.split())
-            for f in g.features | {"profile:" + g.profile, "xml-" + g.ver}:
-                feats[f] = feats.get(f, 0) + 1
-            for api in APIS:
-                for sc in SCANNERS:
-                    cases.append(("doc-%s-%s" % (api, sc), "parse %s %s %s %s" % (api, sc, g.ver, body), g))
-        for _ in range(400 if ctx.tier == "quick" else 20000):
-            cases.append(("stack", gen_stack_ops(ctx.rng), None))
-        ctx.coverage["input_distribution"] = {"documents": ndocs, "features": feats}
-    lines = [c[1] for c in cases]
-    rc1, impl, err1 = run_bin(xh, lines)
-    rc2, model, err2 = run_bin(xm, lines)
-    if rc1 != 0 or len(impl) != len(lines):
-        ctx.violation("harness-crash", {"what": "implementation harness crashed or lost lines", "rc": rc1,
-                                        "stderr": err1[-2000:], "answered": len(impl), "asked": len(lines),
-                                        "request": lines[len(impl)] if len(impl) < len(lines) else None})
-        return
-    if rc2 != 0 or len(model) != len(lines):
-        ctx.violation("model-crash", {"what": "model driver crashed", "stderr": err2[-2000:]}, no_input=True)
-        return
-    # ---- the Spec side: one spec_doc per parse request, one spec_stream per complete SAX2 answer ----
-    spec_req, spec_idx = [], {}
-    for k, (kind, req, _) in enumerate(cases):
-        parts = request_parts(req)
-        if parts:
-            api, sc, ver, qs, us, toks = parts
-            key = "spec_doc %s %d %s %d %s %s" % (ver, len(qs), " ".join(qs), len(us), " ".join(us), " ".join(toks))
-            key = " ".join(key.split())
-            if key not in spec_idx:
-                spec_idx[key] = len(spec_req)
-                spec_req.append(key)
-    stream_req, stream_idx = [], {}
-    for k, (kind, req, _) in enumerate(cases):
-        parts = request_parts(req)
-        if parts and parts[0] in ("sax2p", "sax2") and impl[k].endswith("END"):
-            stream_idx[k] = len(stream_req)
-            stream_req.append("spec_stream " + impl[k])
-    rcS, spec_out, errS = run_bin(xm, spec_req + stream_req)
-    if rcS != 0 or len(spec_out) != len(spec_req) + len(stream_req):
-        ctx.violation("model-crash", {"what": "spec oracle driver crashed", "stderr": errS[-2000:]}, no_input=True)
-        return
-    stream_out = spec_out[len(spec_req):]
-
-    def verdict(k):
-        kind, req, _ = cases[k]
-        parts = request_parts(req)
-        i = impl[k]
-        if not parts:
-            if "CRASH" in i or "EXC" in i:
-                return "crash / exception: " + i[:200]
-            if req.startswith("emptydoc") and i != model[k]:
-                return None
-            return None
-        api, sc, ver, qs, us, toks = parts
-        key = " ".join(("spec_doc %s %d %s %d %s %s" % (ver, len(qs), " ".join(qs), len(us), " ".join(us), " ".join(toks))).split())
-        try:
-            r = spec_verdict(api, toks, qs, us, i, spec_out[spec_idx[key]])
-        except Exception as e:       # an answer the oracle cannot even read
-            r = "unreadable answer (%r): %s" % (e, i[:200])
-        if r:
-            return r
-        if k in stream_idx and stream_out[stream_idx[k]] != "ok 1 1":
-            return "SAX2 event stream is not balanced / correctly scoped: " + stream_out[stream_idx[k]]
-        return None
-
-    kinds = {}
-    divergences = []
-    spec_viol = 0
-    checked = 0
-    answers = {"END/OK": 0, "FATAL": 0, "stack": 0}
-    for k, ((kind, req, g), i, m) in enumerate(zip(cases, impl, model)):
-        ctx.count()
-        kinds[kind] = kinds.get(kind, 0) + 1
-        if kind == "stack":
-            answers["stack"] += 1
-            if " D " in req or " G " in req:
-                ctx.distinct(req)
-        else:
-            answers["FATAL" if "FATAL" in i else "END/OK"] += 1
-            if "xmlns" in req:
-                ctx.distinct(req)
-        if i != m:
-            divergences.append(k)
-            continue
-        # agreeing case: the Spec oracle still runs on every one of them (a bug shared by model and code cannot hide)
-        v = verdict(k)
-        checked += 1
-        if v:
-            spec_viol += 1
-            if spec_viol <= 5:
-                ctx.violation("spec", {"request": req, "impl": i[:4000], "model": m[:4000], "spec": v, "kind": kind,
-                                       "what": "implementation and model agree but violate the Spec (unlisted defect)"})
-    ctx.coverage["traces_validated_against_impl"] = len(lines)
-    ctx.coverage["case_kinds"] = kinds
-    ctx.coverage["answers"] = answers
-    ctx.coverage["spec_oracle_checked"] = checked + len(divergences)
-    for k in (len(WITNESSES) + 7, len(cases) // 2, len(cases) - 1):
-        if 0 <= k < len(cases):
-            ctx.sample({"kind": cases[k][0], "request": cases[k][1][:600], "impl": impl[k][:600], "model": model[k][:600]})
-    # ---- divergences: decided by the Spec ----
-    viol = 0
-    unexplained = []
-    for k in divergences[:400]:
-        kind, req, _ = cases[k]
-        v = verdict(k)
-        if v is None and kind == "stack":
-            v = None
-        if v:
-            viol += 1
-            if viol <= 8:
-                ctx.violation("divergence", {"request": req, "impl": impl[k][:4000], "model": model[k][:4000], "spec": v,
-                                             "kind": kind,
-                                             "what": "implementation differs from the model and violates the Spec"})
-        else:
-            unexplained.append(k)
-    if unexplained and not viol:
-        k = unexplained[0]
+    st = {"kinds": {}, "answers": {"END/OK": 0, "FATAL": 0, "stack": 0}, "checked": 0, "spec_viol": 0, "viol": 0,
+          "per_finding": {}, "unexplained": [], "traces": 0, "divergences": 0}
+    feats = {}
+    for cases in gen_batches(ctx, feats):
+        if not process(ctx, xh, xm, cases, st):
+            return
+        if len(ctx.violations) >= 12:
+            break
+    ctx.coverage["traces_validated_against_impl"] = st["traces"]
+    ctx.coverage["case_kinds"] = st["kinds"]
+    ctx.coverage["answers"] = st["answers"]
+    ctx.coverage["spec_oracle_checked"] = st["checked"]
+    if st["per_finding"]:
+        ctx.note("Spec-violating divergences by finding: %s" % st["per_finding"])
+        ctx.coverage["violations_by_finding"] = {str(k): v for k, v in st["per_finding"].items()}
+    if st["unexplained"] and not st["viol"]:
+        req, i, m = st["unexplained"][0]
         ctx.violation("correspondence", {"what": "model and implementation differ but the Spec oracle found no failing input: "
-                                         "correspondence xh_C06~xm_C06 no longer checks", "request": cases[k][1],
-                                         "impl": impl[k][:4000], "model": model[k][:4000], "count": len(unexplained)},
-                      no_input=True)
-    elif unexplained:
-        ctx.note("%d further divergences satisfy the Spec (first: %s)" % (len(unexplained), cases[unexplained[0]][1][:300]))
+                                         "correspondence xh_C06~xm_C06 no longer checks", "request": req,
+                                         "impl": i, "model": m, "count": len(st["unexplained"])}, no_input=True)
+    elif st["unexplained"]:
+        ctx.note("%d further divergences satisfy the Spec (first: %s)" % (len(st["unexplained"]), st["unexplained"][0][0][:300]))
     if proof_broken and not ctx.violations:
         ctx.violation("obligation", {"what": "Coq obligation no longer checks and no failing input was found by the "
                                      "correspondence sweeps", "failed": failed, "output": out[-3000:]}, no_input=True)
@@ -674,8 +759,9 @@ def run(ctx):
                             "than 100 attributes, 14 kinds of injected namespace errors incl. two errors in one tag) x {SAX2 "
                             "namespace-prefixes on/off, SAX1, DOM} x {IG, WF, SG scanner}; DOM lookups on the document, every "
                             "element, first attribute, text and comment node for every prefix / namespace name of the document; "
-                            "ElemStack operation sequences against the real class; a case is non-trivial when it contains a "
-                            "namespace declaration (documents) or an addPrefix (stack); distinct by request text")
+                            "ElemStack operation sequences against the real class; every case (agreeing or not) is decided by the "
+                            "extracted Spec; a case is non-trivial when it contains a namespace declaration (documents) or an "
+                            "addPrefix (stack); distinct by request text")
     ctx.coverage["exhaustive"] = False
-    ctx.note("correspondence: %d cases, %d divergences, %d spec-checked, %.1fs" % (len(lines), len(divergences), checked,
+    ctx.note("correspondence: %d cases, %d divergences, %d spec-checked, %.1fs" % (st["traces"], st["divergences"], st["checked"],
                                                                               time.time() - t0))
